@@ -1,32 +1,81 @@
-(** Executable entry point of the C15 model for the correspondence check. *)
+(** Executable entry point of the C15 model for the correspondence check
+    (case language: harness/router/src/c15.rs). *)
 From Coq Require Import List ZArith NArith.
 From LV Require Import Base.Sexp Base.Bytes Router.Url.
 Import ListNotations.
 
+(** a map is printed with what the reading API returns for each of its keys *)
+Definition s_reads (m : pmap) (k : bytes) : sexp :=
+  Lst [ sopt (fun vs => Lst (map sbytes vs)) (get_all m k);
+        sopt sbytes (get_str m k);      (* ParamsMap::get = get_str + to_owned *)
+        sopt sbytes (get_str m k) ].
 Definition s_pmap (m : pmap) : sexp :=
-  Lst (map (fun kv => Lst [sbytes (fst kv); Lst (map sbytes (snd kv))]) m).
+  Lst (map (fun kv => Lst [sbytes (fst kv); Lst (map sbytes (snd kv)); s_reads m (fst kv)]) m).
 Definition as_pmap (s : sexp) : pmap :=
   map (fun kv => (as_bytes (nth_s 0 kv), map as_bytes (as_list (nth_s 1 kv)))) (as_list s).
 Definition as_pairs (s : sexp) : list (bytes * bytes) :=
   map (fun kv => (as_bytes (nth_s 0 kv), as_bytes (nth_s 1 kv))) (as_list s).
 
+(** ops 5/6: the (name, raw segment) pairs a level of the chain captures *)
+Definition seg_binding (sg : sexp) : list (bytes * bytes) :=
+  match as_Z (nth_s 0 sg) with
+  | 1%Z | 3%Z => [(as_bytes (nth_s 1 sg), as_bytes (nth_s 2 sg))]
+  | 2%Z => match as_list (nth_s 2 sg) with
+           | r :: _ => [(as_bytes (nth_s 1 sg), as_bytes r)]
+           | [] => []
+           end
+  | _ => []
+  end.
+Definition level_bindings (level : sexp) : list (bytes * bytes) :=
+  flat_map seg_binding (as_list level).
+
+Definition query_map (q : sexp) : pmap :=
+  match as_list q with
+  | [] => []
+  | raw :: _ => parse_search_params (47%N :: 63%N :: as_bytes raw)
+  end.
+
+Definition param_names : list bytes := [[97%N]; [98%N]; [99%N]; [105%N; 100%N]].
+Definition query_names : list bytes := [[113%N]; [97%N]; [107%N]; []].
+Definition s_typed (m : pmap) (names : list bytes) : sexp :=
+  Lst (map (fun n => sopt sbytes (get_str m n)) names).
+
+Definition s_leaf (leafmap qm : pmap) : sexp :=
+  Lst [ s_pmap qm; s_pmap qm; s_typed leafmap param_names; s_typed qm query_names;
+        sopt sbytes (get_str qm [113%N]) ].
+
+Definition step (st : pmap * list sexp) (s : sexp) : pmap * list sexp :=
+  let '(m, removed) := st in
+  let k := as_bytes (nth_s 1 s) in
+  match as_Z (nth_s 0 s) with
+  | 0%Z => (insert m k (as_bytes (nth_s 2 s)), removed)
+  | 1%Z => (replace m k (as_bytes (nth_s 2 s)), removed)
+  | _ => let '(m', r) := remove m k in
+         (m', removed ++ [sopt (fun vs => Lst (map sbytes vs)) r])
+  end.
+
 Definition run_C15 (c : sexp) : sexp :=
   let arg := nth_s 1 c in
   match as_Z (nth_s 0 c) with
   | 0%Z => sbytes (escape (as_bytes arg))
-  | 1%Z => sbytes (unescape (as_bytes arg))
+  | 1%Z => sbytes (unescape (as_bytes arg))     (* also Url::unescape_minimal (ssr) *)
   | 2%Z => s_pmap (parse_search_params (as_bytes arg))
+  | 7%Z => (* leptos_actix: "http://leptos" ++ path_and_query; the model is applied to the
+              path-and-query part (that the prefix does not change the query is compared) *)
+           s_pmap (parse_search_params (as_bytes arg))
   | 3%Z => let m := as_pmap arg in
            let qs := to_query_string m in
-           Lst [sbytes qs; s_pmap (parse_search_params (47%N :: qs))]
+           Lst [sbytes qs; s_pmap (parse_search_params (47%N :: qs)); s_pmap m]
   | 4%Z => s_pmap (route_params (as_pairs arg))
-  | 5%Z => (* nested routes "/:a" > ":b" matched against "/<raw_a>/<raw_b>" *)
-           (* NestedMatch.params of the parent also carries the child's params
-              (matching/nested/mod.rs: params.extend(inner_params)) *)
-           let a := ([97%N], as_bytes (nth_s 0 arg)) in
-           let b := ([98%N], as_bytes (nth_s 1 arg)) in
-           s_pmap (params_including_parents [[a; b]; [b]])
-  | 6%Z => (* flat route "/u/:id" matched against "/u/<raw>" *)
-           s_pmap (route_params [([105%N; 100%N], as_bytes arg)])
+  | 5%Z => let own := map level_bindings (as_list (nth_s 2 c)) in
+           let maps := level_maps own in
+           Lst [ Lst (map s_pmap maps); s_leaf (last maps []) (query_map (nth_s 3 c)) ]
+  | 6%Z => (* flat router: the one route's params go through the decoding FromIterator *)
+           let own := flat_map level_bindings (as_list (nth_s 2 c)) in
+           let m := route_params own in
+           Lst [ Lst [s_pmap m]; s_leaf m (query_map (nth_s 3 c)) ]
+  | 8%Z => let '(m, removed) := fold_left step (as_list arg) ([], []) in
+           let qs := to_query_string m in
+           Lst [ Lst removed; s_pmap m; sbytes qs; s_pmap (parse_search_params (47%N :: qs)) ]
   | _ => Lst []
   end.
